@@ -21,7 +21,7 @@ Lemma singleton_loop_spec body : forall v ds,
 Proof.
   induction body as [|i r IH]; intros v ds; cbn [singleton_loop ruby_singleton].
   - exists (vis_flags v), []. split; [reflexivity | intros d []].
-  - destruct i as [| | |n].
+  - destruct i as [| | |n|n].
     + destruct (IH Private (DEndPrivate :: ds)) as [f' [ds' [E H]]]. exists f', (ds' ++ [DEndPrivate]).
       change (start_private (vis_flags v)) with (vis_flags Private). rewrite E, <- app_assoc. split; [reflexivity|].
       intros d Hd. apply in_app_or in Hd as [Hd|[<-|[]]]; [apply H; exact Hd | left; reflexivity].
@@ -32,6 +32,8 @@ Proof.
       replace (end_protected (end_private (vis_flags v))) with (vis_flags Public) by (destruct v; reflexivity).
       rewrite E. split; [reflexivity | exact H].
     + destruct (IH v ds) as [f' [ds' [E H]]]. exists f', ds'. rewrite E, tag_vis_flags. split; [reflexivity | exact H].
+    + destruct (IH v ds) as [f' [ds' [E H]]]. exists f', ds'. rewrite E.
+      change (start_private (vis_flags v)) with (vis_flags Private). rewrite tag_vis_flags. split; [reflexivity | exact H].
 Qed.
 
 Lemma singleton_section_spec body v : singleton_section body (vis_flags v) = (ruby_singleton body Public, vis_flags v).
@@ -45,7 +47,7 @@ Qed.
 Lemma class_loop_spec items : forall v, class_loop items (vis_flags v) = ruby_class items v.
 Proof.
   induction items as [|i r IH]; intros v; cbn [class_loop ruby_class]; [reflexivity|].
-  destruct i as [| | |n|n|body].
+  destruct i as [| | |n|n|body|n|ns].
   - change (start_private (vis_flags v)) with (vis_flags Private). apply IH.
   - change (start_protected (vis_flags v)) with (vis_flags Protected). apply IH.
   - replace (end_protected (end_private (vis_flags v))) with (vis_flags Public) by (destruct v; reflexivity). apply IH.
@@ -53,6 +55,8 @@ Proof.
   - replace (end_protected (end_private (vis_flags v))) with (vis_flags Public) by (destruct v; reflexivity).
     rewrite IH. reflexivity.
   - rewrite singleton_section_spec, IH. reflexivity.
+  - change (start_private (vis_flags v)) with (vis_flags Private). rewrite tag_vis_flags, IH. reflexivity.
+  - apply IH.
 Qed.
 
 Theorem class_tags_ruby items : class_tags items = ruby_tags items.
@@ -63,3 +67,9 @@ Lemma pinned_refuted :
   pinned_class_loop [IPrivate; ISingleton [SDef "t"]; IDef "c"; IDefSelf "s"] {| f_priv := false; f_prot := false |}
   <> ruby_tags [IPrivate; ISingleton [SDef "t"]; IDef "c"; IDefSelf "s"].
 Proof. vm_compute. discriminate. Qed.
+
+(* the code before the `private` repair: `private def a` made the definitions after it private as well *)
+Lemma section_refuted :
+  section_class_loop [IPrivateDef "a"; IDef "b"] {| f_priv := false; f_prot := false |} <> ruby_tags [IPrivateDef "a"; IDef "b"] /\
+  section_class_loop [IDef "a"; IPrivateSym ["a"]; IDef "b"] {| f_priv := false; f_prot := false |} <> ruby_tags [IDef "a"; IPrivateSym ["a"]; IDef "b"].
+Proof. split; vm_compute; discriminate. Qed.
